@@ -49,3 +49,36 @@ Qed.
 Lemma defaults : vls_FBSB_default_max_steps RN = 20%nat /\ vls_FBSB_default_e RN = Constants.musf RN / 1000.
 Proof. split; [reflexivity|]. unfold vls_FBSB_default_e, Constants.musf. toR. reflexivity. Qed.
 
+
+(* how far the returned speed can be from the true crossing: where the fixed-bed excess gradient rises at least at
+   the rate m per m/s, a speed that meets the exit test with tolerance e is within e/m of the crossing *)
+Lemma near_crossing (f : R -> R) (c m e v x : R) :
+  0 < m -> (forall a b, a < b -> m * (b - a) <= f b - f a) -> f x = c -> Rabs (f v - c) < e -> Rabs (v - x) < e / m.
+Proof.
+  intros Hm Hs Hx He. apply Rabs_def2 in He. destruct He as [He1 He2].
+  assert (Q : forall t, m * t < e -> t < e / m).
+  { intros t Ht. apply Rmult_lt_reg_l with m; [exact Hm|]. replace (m * (e / m)) with e by (field; lra). exact Ht. }
+  apply Rabs_def1.
+  - destruct (Rle_or_lt v x) as [L|G].
+    + apply Rle_lt_trans with 0; [lra|]. apply Q. lra.
+    + apply Q. pose proof (Hs x v G). lra.
+  - destruct (Rle_or_lt x v) as [L|G].
+    + assert (0 < e / m) by (apply Q; lra). lra.
+    + assert (x - v < e / m) by (apply Q; pose proof (Hs v x G); lra). lra.
+Qed.
+
+Lemma exit_near_crossing Dp d eps nu rhol rhos Cvs n e v m x :
+  0 < m ->
+  (forall a b, a < b -> m * (b - a) <= fb_Erhg RN b Dp d eps nu rhol rhos Cvs - fb_Erhg RN a Dp d eps nu rhol rhos Cvs) ->
+  fb_Erhg RN x Dp d eps nu rhol rhos Cvs = Constants.musf RN ->
+  vls_FBSB_full RN Dp d eps nu rhol rhos Cvs n e = (v, true) ->
+  Rabs (v - x) < e / m.
+Proof.
+  intros Hm Hs Hx H.
+  apply (near_crossing (fun u => fb_Erhg RN u Dp d eps nu rhol rhos Cvs) (Constants.musf RN) m e v x Hm Hs Hx).
+  exact (exit _ _ _ _ _ _ _ _ _ _ H).
+Qed.
+
+(* the rate premise is satisfiable (a straight line of slope 2 meets it with m = 2) *)
+Lemma rate_premise_nonvacuous : exists (f : R -> R) (m : R), 0 < m /\ forall a b, a < b -> m * (b - a) <= f b - f a.
+Proof. exists (fun u => 2 * u), 2. split; [lra|]. intros a b _. lra. Qed.
